@@ -556,3 +556,208 @@ theorem fieldσ_ctx (σ : Store) (R : List Nat) (body new : List Ast) (f : Nat) 
     exact unmakeList_fst_frame body σ g hP.2
 
 end Pfst.Links
+
+/-! ## the tree side: pairwise distinct ASTs are kept, and the FST objects of the tree exist -/
+namespace Pfst.Links
+
+mutual
+theorem replaceId_ids_sub : ∀ (T : Ast) (i : Nat) (new : Ast), ∀ y ∈ ids (replaceId i new T), y ∈ ids T ∨ y ∈ ids new
+  | .mk j k f ks, i, new, y, hy => by
+    simp only [replaceId] at hy
+    split at hy
+    · exact Or.inr hy
+    · simp only [ids, List.mem_cons] at hy ⊢
+      cases hy with
+      | inl h => exact Or.inl (Or.inl h)
+      | inr h => exact (replaceIdList_ids_sub ks i new y h).imp Or.inr id
+theorem replaceIdList_ids_sub : ∀ (l : List Ast) (i : Nat) (new : Ast), ∀ y ∈ idsList (replaceIdList i new l),
+    y ∈ idsList l ∨ y ∈ ids new
+  | [], _, _, y, hy => by simp [replaceIdList, idsList] at hy
+  | k :: rest, i, new, y, hy => by
+    simp only [replaceIdList, idsList, List.mem_append] at hy ⊢
+    cases hy with
+    | inl h => exact (replaceId_ids_sub k i new y h).imp Or.inl id
+    | inr h => exact (replaceIdList_ids_sub rest i new y h).imp Or.inr id
+end
+
+mutual
+theorem replaceId_nodup : ∀ (T : Ast) (i : Nat) (new : Ast), (ids T).Nodup → (ids new).Nodup →
+    (∀ x ∈ ids T, x ∉ ids new) → (ids (replaceId i new T)).Nodup
+  | .mk j k f ks, i, new, hnd, hn, hd => by
+    simp only [replaceId]
+    split
+    · exact hn
+    · simp only [ids, List.nodup_cons] at hnd ⊢
+      refine ⟨?_, replaceIdList_nodup ks i new hnd.2 hn (fun x hx => hd x (by simp [ids, hx]))⟩
+      intro h
+      cases replaceIdList_ids_sub ks i new j h with
+      | inl h1 => exact hnd.1 h1
+      | inr h2 => exact hd j (by simp [ids]) h2
+theorem replaceIdList_nodup : ∀ (l : List Ast) (i : Nat) (new : Ast), (idsList l).Nodup → (ids new).Nodup →
+    (∀ x ∈ idsList l, x ∉ ids new) → (idsList (replaceIdList i new l)).Nodup
+  | [], _, _, _, _, _ => by simp [replaceIdList, idsList]
+  | k :: rest, i, new, hnd, hn, hd => by
+    simp only [idsList] at hnd
+    have hnd' := List.nodup_append.mp hnd
+    have hdk : ∀ x ∈ ids k, x ∉ ids new := fun x hx => hd x (by simp [idsList, hx])
+    have hdr : ∀ x ∈ idsList rest, x ∉ ids new := fun x hx => hd x (by simp [idsList, hx])
+    simp only [replaceIdList, idsList]
+    rw [List.nodup_append]
+    by_cases hik : i ∈ ids k
+    · have hir : i ∉ idsList rest := fun h => hnd'.2.2 i hik i h rfl
+      rw [replaceIdList_notin rest i new hir]
+      refine ⟨replaceId_nodup k i new hnd'.1 hn hdk, hnd'.2.1, ?_⟩
+      intro a ha b hb hab
+      subst hab
+      cases replaceId_ids_sub k i new a ha with
+      | inl h1 => exact hnd'.2.2 a h1 a hb rfl
+      | inr h2 => exact hdr a hb h2
+    · rw [replaceId_notin k i new hik]
+      refine ⟨hnd'.1, replaceIdList_nodup rest i new hnd'.2.1 hn hdr, ?_⟩
+      intro a ha b hb hab
+      subst hab
+      cases replaceIdList_ids_sub rest i new a hb with
+      | inl h1 => exact hnd'.2.2 a ha a h1 rfl
+      | inr h2 => exact hdk a ha h2
+end
+
+theorem idsList_append : ∀ (l1 l2 : List Ast), idsList (l1 ++ l2) = idsList l1 ++ idsList l2
+  | [], l2 => by simp [idsList]
+  | k :: rest, l2 => by simp only [List.cons_append, idsList, idsList_append rest l2, List.append_assoc]
+
+theorem idsList_filter_nodup (p : Ast → Bool) : ∀ (l : List Ast), (idsList l).Nodup → (idsList (l.filter p)).Nodup
+  | [], _ => by simp [idsList]
+  | k :: rest, hnd => by
+    simp only [idsList] at hnd
+    have hnd' := List.nodup_append.mp hnd
+    simp only [List.filter]
+    cases hp : p k with
+    | true =>
+      simp only [idsList]
+      rw [List.nodup_append]
+      exact ⟨hnd'.1, idsList_filter_nodup p rest hnd'.2.1,
+        fun a ha b hb => hnd'.2.2 a ha b (idsList_filter_sub p rest b hb)⟩
+    | false => exact idsList_filter_nodup p rest hnd'.2.1
+
+mutual
+theorem setKids_ids_sub : ∀ (T : Ast) (i : Nat) (name : String) (new : List Ast),
+    ∀ y ∈ ids (setKids i name new T), y ∈ ids T ∨ y ∈ idsList new
+  | .mk j k f ks, i, name, new, y, hy => by
+    simp only [setKids] at hy
+    split at hy
+    · simp only [ids, List.mem_cons, idsList_append, List.mem_append] at hy ⊢
+      rcases hy with h | h | h
+      · exact Or.inl (Or.inl h)
+      · exact Or.inl (Or.inr (idsList_filter_sub _ ks y h))
+      · exact Or.inr h
+    · simp only [ids, List.mem_cons] at hy ⊢
+      cases hy with
+      | inl h => exact Or.inl (Or.inl h)
+      | inr h => exact (setKidsList_ids_sub ks i name new y h).imp Or.inr id
+theorem setKidsList_ids_sub : ∀ (l : List Ast) (i : Nat) (name : String) (new : List Ast),
+    ∀ y ∈ idsList (setKidsList i name new l), y ∈ idsList l ∨ y ∈ idsList new
+  | [], _, _, _, y, hy => by simp [setKidsList, idsList] at hy
+  | k :: rest, i, name, new, y, hy => by
+    simp only [setKidsList, idsList, List.mem_append] at hy ⊢
+    cases hy with
+    | inl h => exact (setKids_ids_sub k i name new y h).imp Or.inl id
+    | inr h => exact (setKidsList_ids_sub rest i name new y h).imp Or.inr id
+end
+
+mutual
+theorem setKids_nodup : ∀ (T : Ast) (i : Nat) (name : String) (new : List Ast), (ids T).Nodup → (idsList new).Nodup →
+    (∀ x ∈ ids T, x ∉ idsList new) → (ids (setKids i name new T)).Nodup
+  | .mk j k f ks, i, name, new, hnd, hn, hd => by
+    simp only [ids, List.nodup_cons] at hnd
+    simp only [setKids]
+    split
+    · simp only [ids, List.nodup_cons, idsList_append, List.mem_append, not_or]
+      refine ⟨⟨fun h => hnd.1 (idsList_filter_sub _ ks j h), hd j (by simp [ids])⟩, ?_⟩
+      rw [List.nodup_append]
+      exact ⟨idsList_filter_nodup _ ks hnd.2, hn,
+        fun a ha b hb hab => hd a (by simp [ids, idsList_filter_sub _ ks a ha]) (hab ▸ hb)⟩
+    · simp only [ids, List.nodup_cons]
+      refine ⟨?_, setKidsList_nodup ks i name new hnd.2 hn (fun x hx => hd x (by simp [ids, hx]))⟩
+      intro h
+      cases setKidsList_ids_sub ks i name new j h with
+      | inl h1 => exact hnd.1 h1
+      | inr h2 => exact hd j (by simp [ids]) h2
+theorem setKidsList_nodup : ∀ (l : List Ast) (i : Nat) (name : String) (new : List Ast), (idsList l).Nodup →
+    (idsList new).Nodup → (∀ x ∈ idsList l, x ∉ idsList new) → (idsList (setKidsList i name new l)).Nodup
+  | [], _, _, _, _, _, _ => by simp [setKidsList, idsList]
+  | k :: rest, i, name, new, hnd, hn, hd => by
+    simp only [idsList] at hnd
+    have hnd' := List.nodup_append.mp hnd
+    have hdk : ∀ x ∈ ids k, x ∉ idsList new := fun x hx => hd x (by simp [idsList, hx])
+    have hdr : ∀ x ∈ idsList rest, x ∉ idsList new := fun x hx => hd x (by simp [idsList, hx])
+    simp only [setKidsList, idsList]
+    rw [List.nodup_append]
+    by_cases hik : i ∈ ids k
+    · have hir : i ∉ idsList rest := fun h => hnd'.2.2 i hik i h rfl
+      rw [setKidsList_notin rest i name new hir]
+      refine ⟨setKids_nodup k i name new hnd'.1 hn hdk, hnd'.2.1, ?_⟩
+      intro a ha b hb hab
+      subst hab
+      cases setKids_ids_sub k i name new a ha with
+      | inl h1 => exact hnd'.2.2 a h1 a hb rfl
+      | inr h2 => exact hdr a hb h2
+    · rw [setKids_notin k i name new hik]
+      refine ⟨hnd'.1, setKidsList_nodup rest i name new hnd'.2.1 hn hdr, ?_⟩
+      intro a ha b hb hab
+      subst hab
+      cases setKidsList_ids_sub rest i name new a hb with
+      | inl h1 => exact hnd'.2.2 a ha a h1 rfl
+      | inr h2 => exact hdk a ha h2
+end
+
+/-- FST objects of the tree and of `new` exist after `_set_ast`; the ASTs of `old` are dead -/
+theorem swapσ_bounds (σ : Store) (old new : Ast) (f : Nat) (hF : f < σ.next)
+    (hnd : (ids new).Nodup) (hfresh : ∀ x ∈ ids new, σ.astF x = none) :
+    σ.next ≤ (swapσ σ old f new).next ∧
+    (∀ y ∈ ids new, ∀ g, (swapσ σ old f new).astF y = some g → g < (swapσ σ old f new).next) ∧
+    (∀ y ∈ ids old, y ∉ ids new → (swapσ σ old f new).astF y = none) := by
+  obtain ⟨nid, nk, nf, nks⟩ := new
+  simp only [ids, List.nodup_cons] at hnd
+  have hnext : (unmake σ old).next = σ.next := unmake_next _ _
+  have h2fresh : ∀ x ∈ idsList nks, (relink (unmake σ old) f nid).astF x = none := by
+    intro x hx
+    have hxn : x ≠ nid := fun e => hnd.1 (e ▸ hx)
+    simp only [relink, upd_other _ _ _ _ hxn]
+    exact unmake_keeps_none _ _ _ (hfresh x (by simp [ids, hx]))
+  have h2next : (relink (unmake σ old) f nid).next = σ.next := hnext
+  obtain ⟨hfr, _⟩ := makeKids_spec nks (relink (unmake σ old) f nid) f (by omega) hnd.2 h2fresh
+  simp only [swapσ, Ast.id, Ast.kids]
+  refine ⟨by have := hfr.next_le; omega, ?_, ?_⟩
+  · intro y hy g hg
+    simp only [ids, List.mem_cons] at hy
+    by_cases hyk : y ∈ idsList nks
+    · exact hfr.astF_lt y hyk g hg
+    · have hyn : y = nid := by cases hy with | inl h => exact h | inr h => exact absurd h hyk
+      rw [hfr.astF_out y hyk, hyn] at hg
+      simp only [relink, upd_same] at hg
+      cases hg
+      have := hfr.next_le
+      omega
+  · intro y hyo hyn
+    simp only [ids, List.mem_cons, not_or] at hyn
+    rw [hfr.astF_out y hyn.2]
+    simp only [relink, upd_other _ _ _ _ hyn.1]
+    exact unmake_kills old σ y hyo
+
+/-- FST objects of the tree and of `new` exist after `_set_field`; the ASTs of the old elements are dead -/
+theorem fieldσ_bounds (σ : Store) (body new : List Ast) (f : Nat) (hF : f < σ.next)
+    (hnd : (idsList new).Nodup) (hfresh : ∀ x ∈ idsList new, σ.astF x = none) :
+    σ.next ≤ (fieldσ σ body f new).next ∧
+    (∀ y ∈ idsList new, ∀ g, (fieldσ σ body f new).astF y = some g → g < (fieldσ σ body f new).next) ∧
+    (∀ y ∈ idsList body, y ∉ idsList new → (fieldσ σ body f new).astF y = none) := by
+  have hnext : (unmakeList σ body).next = σ.next := unmakeList_next _ _
+  have h1fresh : ∀ x ∈ idsList new, (unmakeList σ body).astF x = none :=
+    fun x hx => unmakeList_keeps_none _ _ _ (hfresh x hx)
+  obtain ⟨hfr, _⟩ := makeKids_spec new (unmakeList σ body) f (by omega) hnd h1fresh
+  simp only [fieldσ]
+  refine ⟨by have := hfr.next_le; omega, fun y hy g hg => hfr.astF_lt y hy g hg, ?_⟩
+  intro y hyo hyn
+  rw [hfr.astF_out y hyn]
+  exact unmakeList_kills body σ y hyo
+
+end Pfst.Links
